@@ -202,12 +202,28 @@ PROPS['C18'] = {
 }
 
 
+PROPS['C02'] = {
+    'level': 'model_checking',
+    'pkgs': ALLV,
+    'reuse': ['C08_Canonical', 'C01_AcceptShaped', 'C06_ValuesShaped', 'C07_Eq', 'C07_Set', 'C07_Zero'],
+    'text': 'decided as the conjunction of solver-checked lemmas on the real code: (a) Vector(c) is the canonical serialisation of c for EVERY reachable object (C08_Canonical, no bound); (b) ParseVector accepts the canonical strings within the shaped-input bound (C01_AcceptShaped); (c) the parsed object returns on every Get the value written in the string (C06_ValuesShaped); (d) objects with equal Get values are == and every object reachable through Set/zero value satisfies the invariant (C07). (a)-(d) give ParseVector(Vector(c)) == c with equal Gets. A counterexample of any lemma is replayed natively',
+    'bounds': '(a), (d): none. (b), (c): canonical vectors whose optional part is at most TAIL_N bytes (quick: v2 6, v3 12, v4 6; thorough 12/18/12), i.e. objects with few defined optional metrics; objects with longer canonical spellings are outside the parser lemmas and hence outside the claim',
+    'solvers': {'quick': ['z3'], 'thorough': ['z3', 'z3new']},
+    'timeout': {'quick': 900, 'thorough': 3600},
+    'per_harness': dict(PARSER_PARAMS, **{'C08_Canonical': {'handler': 'groups_decide', 'ignore_kinds': ['growth']}}),
+    'technique': PROPS['C01']['technique'] + '; composition of lemmas',
+}
+PROPS['C06']['per_harness'] = dict(PARSER_PARAMS, **{'C06_Values$': {'quick': {'skip': True}, 'thorough': {}}})
+PROPS['C14']['per_harness'] = dict(PARSER_PARAMS, **{'h20.C14_PoolIndependence$': {'quick': {'params': {'PARSE_N': 8}}, 'thorough': {'params': {'PARSE_N': 14}}}})
+
+
 def harnesses(pid, tier, hf):
     cfg = PROPS[pid]
     out = []
+    prefixes = tuple(cfg.get('reuse', [])) or (pid + '_',)
     for pkg in cfg['pkgs']:
         for f in sorted(hf.get(pkg, ())):
-            if not f.startswith(pid + '_'):
+            if not f.startswith(prefixes):
                 continue
             h = {'pkg': pkg, 'func': 'verifharness/%s.%s' % (pkg, f)}
             over = cfg.get('per_harness', {})
